@@ -129,12 +129,29 @@ pub fn lace(args: &[&str], cwd: &Path, stdin: &[u8], release: bool, limit_s: u64
 /// (i.e. is waiting for a key). stdout / stderr are pipes as in `lace()`. Returns the run and the
 /// number of keys that were typed before the program ended.
 pub fn lace_tty(args: &[&str], cwd: &Path, keys: &[Vec<u8>], release: bool, limit_s: u64) -> (Run, usize) {
+    lace_tty_env(args, cwd, keys, release, limit_s, &[])
+}
+
+/// `lace_tty` with extra environment variables for the child.
+pub fn lace_tty_env(args: &[&str], cwd: &Path, keys: &[Vec<u8>], release: bool, limit_s: u64, envs: &[(&str, &str)]) -> (Run, usize) {
     use std::io::Read;
     use std::os::unix::io::FromRawFd;
     use std::os::unix::process::{CommandExt, ExitStatusExt};
     let (mut master, mut slave) = (0 as libc::c_int, 0 as libc::c_int);
     let rc = unsafe { libc::openpty(&mut master, &mut slave, std::ptr::null_mut(), std::ptr::null_mut(), std::ptr::null_mut()) };
     assert!(rc == 0, "openpty failed");
+    // The terminal starts out (and is left, whenever the program restores it) in a mode without
+    // line editing, echo or signal keys: a key typed while the program is not reading simply
+    // waits in the queue, unmodified, as if the user had typed it a moment later. That makes the
+    // pacing below a matter of flow control only, free of races with the program's switches
+    // between raw and restored mode.
+    unsafe {
+        let mut t: libc::termios = std::mem::zeroed();
+        if libc::tcgetattr(slave, &mut t) == 0 {
+            libc::cfmakeraw(&mut t);
+            libc::tcsetattr(slave, libc::TCSANOW, &t);
+        }
+    }
     let mut cmd = Command::new(lace_bin(release));
     cmd.args(args)
         .current_dir(cwd)
@@ -142,6 +159,7 @@ pub fn lace_tty(args: &[&str], cwd: &Path, keys: &[Vec<u8>], release: bool, limi
         .env_remove("CLICOLOR_FORCE")
         .env("RUST_BACKTRACE", "0")
         .env("TERM", "xterm")
+        .envs(envs.iter().map(|(k, v)| (k.to_string(), v.to_string())))
         .stdin(unsafe { Stdio::from_raw_fd(libc::dup(slave)) })
         .stdout(Stdio::piped())
         .stderr(Stdio::piped());
@@ -175,72 +193,66 @@ pub fn lace_tty(args: &[&str], cwd: &Path, keys: &[Vec<u8>], release: bool, limi
     let t0 = std::time::Instant::now();
     let mut timed_out = false;
     let mut typed = 0usize;
-    let raw_mode = |fd: libc::c_int| -> bool {
-        let mut t: libc::termios = unsafe { std::mem::zeroed() };
-        unsafe { libc::tcgetattr(fd, &mut t) == 0 && (t.c_lflag & libc::ICANON) == 0 }
-    };
     let drain = |fd: libc::c_int| {
         let mut buf = [0u8; 4096];
         while unsafe { libc::read(fd, buf.as_mut_ptr() as *mut libc::c_void, buf.len()) } > 0 {}
     };
-    let mut status = None;
-    'outer: loop {
-        // wait for the next moment at which a key may be typed, or for the end of the program
-        loop {
-            if let Ok(Some(st)) = child.try_wait() {
-                status = Some(st);
-                break 'outer;
-            }
-            if t0.elapsed().as_secs() >= limit_s {
-                timed_out = true;
-                let _ = child.kill();
-                break 'outer;
-            }
-            drain(master);
-            if typed < keys.len() && raw_mode(master) {
-                break;
-            }
-            std::thread::sleep(std::time::Duration::from_micros(500));
-        }
-        let k = &keys[typed];
+    let pending = |fd: libc::c_int| -> i32 {
+        let mut n: libc::c_int = 0;
         unsafe {
-            libc::write(master, k.as_ptr() as *const libc::c_void, k.len());
+            if libc::ioctl(fd, libc::FIONREAD, &mut n) != 0 {
+                return -1;
+            }
         }
-        typed += 1;
-        // the key is taken when the terminal's input queue is empty again, or the program leaves
-        // raw mode, or ends (two reads in a row re-enter raw mode faster than this loop can see)
-        let pending = |fd: libc::c_int| -> i32 {
-            let mut n: libc::c_int = 0;
+        n
+    };
+    let status;
+    loop {
+        if let Ok(Some(st)) = child.try_wait() {
+            status = Some(st);
+            break;
+        }
+        if t0.elapsed().as_secs() >= limit_s {
+            timed_out = true;
+            let _ = child.kill();
+            status = None;
+            break;
+        }
+        drain(master);
+        // the next key is typed once the previous one has been read by the program
+        if typed < keys.len() && pending(slave_probe) == 0 {
+            let k = &keys[typed];
             unsafe {
-                if libc::ioctl(fd, libc::FIONREAD, &mut n) != 0 {
-                    return -1;
-                }
+                libc::write(master, k.as_ptr() as *const libc::c_void, k.len());
             }
-            n
-        };
-        let t1 = std::time::Instant::now();
-        while raw_mode(master) && pending(slave_probe) != 0 && t1.elapsed().as_millis() < 3000 {
-            if let Ok(Some(st)) = child.try_wait() {
-                status = Some(st);
-                break 'outer;
-            }
-            std::thread::sleep(std::time::Duration::from_micros(300));
+            typed += 1;
+            continue;
         }
-        if std::env::var("VERIF_TTY_DEBUG").is_ok() {
-            crate::lacebox::log(&format!("tty: key {:?} taken after {} ms (since start {} ms)", k, t1.elapsed().as_millis(), t0.elapsed().as_millis()));
-        }
+        std::thread::sleep(std::time::Duration::from_micros(200));
     }
     let st = match status {
         Some(s) => s,
         None => child.wait().expect("wait lace"),
     };
+    // keys still in the queue when the program ended were never read
+    let unread = pending(slave_probe).max(0) as usize;
+    let mut consumed = typed;
+    let mut left = unread;
+    while left > 0 && consumed > 0 {
+        let l = keys[consumed - 1].len();
+        if l > left {
+            break;
+        }
+        left -= l;
+        consumed -= 1;
+    }
     unsafe {
         libc::close(master);
         libc::close(slave_probe);
     }
     let stdout = t_out.join().unwrap_or_default();
     let stderr = t_err.join().unwrap_or_default();
-    (Run { code: st.code(), signal: st.signal(), stdout, stderr, timed_out }, typed)
+    (Run { code: st.code(), signal: st.signal(), stdout, stderr, timed_out }, consumed)
 }
 
 /// File stems for the process-level checks: what the tool does must not depend on how a file is
